@@ -1746,6 +1746,96 @@ func c11DirectSignatures(p *Program, r *Report, m *vmModel) {
 		bad = "recognised arities " + set(recognised) + " but the direct path calls functions of arities " + set(called) + ": a recognised function is never called"
 	}
 	r.Check(bad == "", "C11.R2", funcName(creator)+"|concrete signatures agree with "+caller.Name(), p.Pos(creator.Pos()), "arities "+set(created)+" created, recognised and limited alike", bad)
+	// evaluated outright for each parameter count n: the conditions of the creator that compare len(params) with a constant are
+	// decided, everything else takes both branches; every return is then preceded by the creation of a function value, and a
+	// concrete signature created on the way has exactly n value parameters
+	{
+		base := m.baseOf(creator)
+		lenAtom := func(v ssa.Value, n int64) (bool, bool) {
+			bo, ok := v.(*ssa.BinOp)
+			if !ok {
+				return false, false
+			}
+			k, ok := bo.Y.(*ssa.Const)
+			if !ok || k.Value == nil {
+				return false, false
+			}
+			lc, ok := bo.X.(*ssa.Call)
+			if !ok {
+				return false, false
+			}
+			if bi, ok := lc.Call.Value.(*ssa.Builtin); !ok || bi.Name() != "len" {
+				return false, false
+			}
+			kk := k.Int64()
+			switch bo.Op {
+			case token.EQL:
+				return n == kk, true
+			case token.NEQ:
+				return n != kk, true
+			case token.LSS:
+				return n < kk, true
+			case token.LEQ:
+				return n <= kk, true
+			case token.GTR:
+				return n > kk, true
+			case token.GEQ:
+				return n >= kk, true
+			}
+			return false, false
+		}
+		makesFunc := func(b *ssa.BasicBlock) (bool, int) { // stores a function value into the result cell; arity of a concrete one (-1 otherwise)
+			for _, in := range b.Instrs {
+				st, ok := in.(*ssa.Store)
+				if !ok || m.cellAddr(st.Addr, base) != "rv" {
+					continue
+				}
+				c, ok := st.Val.(*ssa.Call)
+				if !ok {
+					continue
+				}
+				o := calleeObj(c)
+				if isFuncNamed(o, "reflect", "", "MakeFunc") {
+					return true, -1
+				}
+				if isFuncNamed(o, "reflect", "", "ValueOf") {
+					if mi, ok := c.Call.Args[0].(*ssa.MakeInterface); ok {
+						if sg, ok := mi.X.Type().Underlying().(*types.Signature); ok {
+							if a, ok := isVMSig(sg); ok {
+								return true, a
+							}
+						}
+					}
+				}
+			}
+			return false, -1
+		}
+		badW := ""
+		for n := int64(0); n <= int64(max)+2; n++ {
+			world := map[ssa.Value]bool{}
+			for _, b := range creator.Blocks {
+				for _, in := range b.Instrs {
+					if v, ok := in.(ssa.Value); ok {
+						if val, ok := lenAtom(v, n); ok {
+							world[v] = val
+						}
+					}
+				}
+			}
+			// states reachable in this world without having created a function value
+			for _, stt := range worldStatesAvoiding(creator, world, func(b *ssa.BasicBlock) bool { mk, _ := makesFunc(b); return mk }) {
+				if ret, ok := stt.b.Instrs[len(stt.b.Instrs)-1].(*ssa.Return); ok {
+					badW = fmt.Sprintf("for a function with %d parameter(s) the creator can return at %s without having created a function value: the name is bound to whatever value was computed before", n, p.Pos(instrPos(ret)))
+				}
+			}
+			for b := range worldReach(creator, world) {
+				if mk, a := makesFunc(b); mk && a >= 0 && int64(a) != n {
+					badW = fmt.Sprintf("for a function with %d parameter(s) the creator builds a function value with %d value parameter(s)", n, a)
+				}
+			}
+		}
+		r.Check(badW == "", "C11.R2", funcName(creator)+"|a function value for every parameter count", p.Pos(creator.Pos()), fmt.Sprintf("parameter counts 0..%d evaluated: a function value of the right arity is created before every return", max+2), badW)
+	}
 	// every function variable of the direct caller that is called is assigned
 	for _, b := range caller.Blocks {
 		for _, in := range b.Instrs {
